@@ -48,6 +48,8 @@ CHECKS = {
                 note="Trusted: lxml. Sections have no lookup by name in the API. Setters that strip the name (table, named range) are queried with the stripped identifier."),
     "C13": dict(tech=MC, ref="5/C13", text="Every insert_style(family x name in {None, A, B, odfdo_auto_7} x {common, automatic, default}) inside its documented domain, alone (with save + reload) on 5 documents, every ordered pair (representative first op, any second op), and merge_styles_from between every pair of documents; an independent lxml walk over the four style containers of both parts checks the container required by family/kind, uniqueness of (tag, family, name), the returned name, that get_style finds the very element inserted, non-colliding generated names, union / other-wins / source-unchanged for merges.",
                 note="Trusted: lxml. Domain as documented (a name or automatic or default; default for style:style families; master pages, page layouts, font faces named). A caller-made clash of the same family+name between an automatic and a common style is outside the domain."),
+    "C12": dict(tech=ENUM, ref="5/C12", text="The class registry is read at run time; for every class, every constructor argument vector with at most two parameters off their defaults over type/name-directed domains (deviation bound 2): serialisation well-formed and re-parsed to the same class with identical C14N, every same-named property equal before/after re-parse, every passed argument exposed by its same-named property (reviewed, reasoned exceptions in c12_exceptions.json; anything else is reported, so a new class is covered without editing the check); dispatch: one instance of every registered tag nested three deep through children / parent / get_elements / xpath / clone / get_element / from_tag.",
+                note="Trusted: lxml. Constructor calls raising ValueError/TypeError/KeyError/AttributeError count as invalid argument combinations. Comparison under str/bool/colour/duration normalisation."),
 }
 
 NOT_YET = {}
